@@ -3,7 +3,7 @@
 // Bounded native contract driver for property C08 (redeemers are attached to the item they were written for).
 // The index computations of the redeemer compilers are iterator chains (sort_by_key / dedup / position /
 // filter_map / chain / collect) over pallas maps and sets: outside the verifier's subset.  This driver evaluates
-// their contract on the REAL functions (`compile_tx_body` + `compile_redeemers`) over an enumerated domain:
+// their contract on the REAL code (through `entry_point`, the public entry of the module) over an enumerated domain:
 //   * 1..=3 script input blocks, block i holding 1 or 2 UTxOs, transaction ids taken from every permutation of
 //     a 4-element id set and output indices from {0, 1} (all relative orders of txid / index / block order);
 //   * 0..=2 mints and 0..=1 burn over two policies in both orders, with and without redeemers;
@@ -81,9 +81,14 @@ mod verif_driver_redeemers {
 
     /// (purpose, index) -> redeemer number, as produced by the real code
     fn produced(tx: &tir::Tx) -> Result<BTreeMap<(u8, u32), i128>, String> {
-        let body = compile_tx_body(tx, Network::Testnet).map_err(|e| format!("compile_tx_body: {e}"))?;
-        let reds = compile_redeemers(tx, &body, Network::Testnet).map_err(|e| format!("compile_redeemers: {e}"))?;
+        // through the module's public entry point, so that the oracle does not depend on the internal call chain
+        let pparams = PParams {
+            network: Network::Testnet, min_fee_coefficient: 44, min_fee_constant: 155381, coins_per_utxo_byte: 4310,
+            cost_models: HashMap::from([(0u8, vec![0i64; 166]), (1u8, vec![0i64; 175]), (2u8, vec![0i64; 251])]),
+        };
+        let compiled = entry_point(tx, &pparams).map_err(|e| format!("entry_point: {e}"))?;
         let mut out = BTreeMap::new();
+        let reds: Option<&primitives::Redeemers> = compiled.transaction_witness_set.redeemer.as_deref();
         if let Some(primitives::Redeemers::Map(m)) = reds {
             for (k, v) in m.iter() {
                 let tag = match k.tag {
